@@ -63,7 +63,7 @@ def load(idx: Index) -> Typed:
     in a scratch copy outside /repo and /verif and removed afterwards)."""
     os.makedirs(CACHE, exist_ok=True)
     out = os.path.join(CACHE, f'l1-{idx.digest[:32]}.json')
-    lock = open(os.path.join(CACHE, 'l1.lock'), 'w')
+    lock = open(os.path.join(CACHE, f'l1-{idx.digest[:32]}.lock'), 'w')   # per tree state: variants build in parallel
     try:
         fcntl.flock(lock, fcntl.LOCK_EX)
         if not os.path.exists(out):
@@ -83,11 +83,12 @@ def load(idx: Index) -> Typed:
             # keep the cache small
             olds = sorted((os.path.join(CACHE, x) for x in os.listdir(CACHE) if x.startswith('l1-') and x.endswith('.json')),
                           key=os.path.getmtime)
-            for x in olds[:-12]:
-                try:
-                    os.remove(x)
-                except OSError:
-                    pass
+            for x in olds[:-40]:
+                for y in (x, x[:-5] + '.lock'):
+                    try:
+                        os.remove(y)
+                    except OSError:
+                        pass
     finally:
         fcntl.flock(lock, fcntl.LOCK_UN)
         lock.close()
